@@ -367,11 +367,23 @@ impl Prop for C08 {
                     match r {
                         Run::Done(o) => match o.slots.last() {
                             Some(Slot::Ok { out, .. }) => {
-                                let mut t = out.clone();
-                                if !conv.thou.is_empty() {
-                                    t = t.replace(conv.thou.as_str(), "");
+                                // only separators that stand between two digits belong to a number
+                                // (the symbol of BGN, 'лв.', ends with a point of its own)
+                                let cs: Vec<char> = out.chars().collect();
+                                let mut t = String::new();
+                                for (i, c) in cs.iter().enumerate() {
+                                    let between = i > 0 && i + 1 < cs.len() && cs[i - 1].is_ascii_digit() && cs[i + 1].is_ascii_digit();
+                                    let one = c.to_string();
+                                    if between && !conv.thou.is_empty() && one == conv.thou {
+                                        continue;
+                                    }
+                                    if between && one == conv.dec {
+                                        t.push('.');
+                                    } else {
+                                        t.push(*c);
+                                    }
                                 }
-                                Some(t.replace(conv.dec.as_str(), "."))
+                                Some(t)
                             }
                             _ => None,
                         },
